@@ -53,7 +53,7 @@ INGEST_RULE = ("a case is one seeded run of the whole writer in a synctest bubbl
 PROPS = {
     "C01": ingest("C01", "deterministic simulation: baton-scheduled real writer on a fault-injecting ClickHouse stub; ack ledger oracle over the recorded history, bounded-progress oracle after the last fault",
                   "Seeded exploration of interleavings of concurrent pushes with timer/size/forced flushes and of per-INSERT outcomes; every 2xx is checked against the log of successful INSERT blocks ordered by global event numbers, every request must be answered exactly once within a configuration-derived bound after faults stop. Sampling, not enumeration.",
-                  "schedule points are the instrumented synchronisation operations; rows are attributed by run-unique tags", INGEST_RULE,
+                  "schedule points are the instrumented synchronisation operations plus seeded preemption points at function entries and loop bodies (not inside single statements); rows are attributed by run-unique tags; one or two independent ClickHouse nodes, never a cluster of replicas", INGEST_RULE,
                   ["request-arrived-while-insert-in-flight", "insert-failed", "reconnect-refused-then-accepted", "request-answered-5xx", "request-answered-2xx"], design_ref="DESIGN.md §4 C01"),
     "C02": ingest("C02", "deterministic simulation: every INSERT block observed at the ClickHouse boundary is decoded and checked row by row against the submitted body models; the outcome reported to a request is checked against the blocks that carried its rows",
                   "Same runs as C01; every block must be rectangular, every row must be exactly one submitted row with all fields from that row, no row twice in a block. Row shapes include empty streams, >1000 points, >1 MiB chunks.",
